@@ -328,6 +328,12 @@ func (e *Engine) builtin(b *ssa.Builtin, args []Value, call *ssa.Call) Value {
 		return p
 	case "print", "println":
 		return nil
+	case "recover":
+		if e.panicking != nil && !e.panicking.recovered {
+			e.panicking.recovered = true
+			return e.panicking.v
+		}
+		return Iface{}
 	}
 	panic(unsupported(fmt.Sprintf("builtin %s(%d args)", b.Name(), len(args))))
 }
